@@ -17,7 +17,7 @@ pub fn def() -> PropDef {
                placeholders, disabled, default, transparent, default_with, ascii_case_insensitive, message / detailed_message / docs / props, explicit discriminants, repr, \
                serialize_all, prefix, parse_err_*, const_into_str, generics <T>, <const N>, <'a>, strum_discriminants(derive/name/vis/pass-through); each program carries EVERY \
                non-deprecated derive it admits. configurations: (a) #![no_std] lib without alloc, strum default-features=false; (b) strum reachable only as `strum_x` / \
-               `crate::re::strum_x` through #[strum(crate = ..)]; (c) `mod core {}` / `mod std {}` declared next to every enum. oracle: rustc accepts the module; any diagnostic is \
+               `crate::re::strum_x` / `::strum_x` / a `use .. as st` alias through #[strum(crate = ..)]; (c) `mod core {}` / `mod std {}` declared next to every enum. oracle: rustc accepts the module; any diagnostic is \
                attributed to its program. non-trivial = every (program, configuration) pair with >= 1 deviation",
         trusted_base: &["rustc (type checking of the expanded code)", "the admissible-derive table in vf-core/props/c19.rs"],
         assumptions: &["check-only build (cargo check): no code generation or linking is needed to decide name resolution"],
@@ -372,10 +372,13 @@ pub fn render(p: &C19Program, cfg: &str, idx: usize) -> String {
     let mut spec = p.spec.clone();
     let (strum, crate_attr): (&str, Option<String>) = match cfg {
         // three spellings of the path; the `::`-rooted one sits next to a local module with the crate's name
-        "renamed" => match idx % 3 {
+        // four spellings of the path; the `::`-rooted one sits next to a local module with the crate's name, the last one is a
+        // single identifier bound by a `use` alias in the enum's module (not an extern crate name)
+        "renamed" => match idx % 4 {
             0 => ("strum_x", Some("strum_x".to_string())),
             1 => ("strum_x", Some("crate::re::strum_x".to_string())),
-            _ => ("::strum_x", Some("::strum_x".to_string())),
+            2 => ("::strum_x", Some("::strum_x".to_string())),
+            _ => ("st", Some("st".to_string())),
         },
         // a local module named `strum` is in scope as well: the derives are named by absolute path, and the generated code
         // must reach the crate through `::strum` (its default path) too
@@ -417,6 +420,9 @@ pub fn render(p: &C19Program, cfg: &str, idx: usize) -> String {
     }
     if crate_attr.as_deref() == Some("::strum_x") {
         o.push_str("mod strum_x {}\n");
+    }
+    if crate_attr.as_deref() == Some("st") {
+        o.push_str("#[allow(unused_imports)]\nuse crate::re::strum_x as st;\n");
     }
     o.push_str(&render_enum(&spec, &dref));
     o.push_str(&render_dw_helpers(&spec, "u8"));
